@@ -82,6 +82,12 @@ def run(e: Engine, rep: Report):
     rep.rule('W7', 'MULTILINE patterns of the reply modules have no repeat '
              'that can consume LF')
     w7(e, rep)
+    rep.rule('W8', 'derived state of Reply: an attribute that a property '
+             'getter fills from other attributes (a memo of the rendered '
+             'text) is written by every method that writes one of those '
+             'attributes - copy() included (a reply that is re-populated '
+             'after it was read would go out with the old text / ESC)')
+    w8(e, rep)
     rep.floor('W2', 4, 'framing agreement obligations')
 
 
@@ -654,3 +660,94 @@ def w7(e: Engine, rep: Report):
         rep.ok('W7', 'slimta.smtp.reply', 'no line-anchored (MULTILINE) '
                'pattern in the reply modules', reason='nothing to cross a '
                'line', nontrivial=False)
+
+
+# ---------------------------------------------------------------------- W8
+def w8(e: Engine, rep: Report):
+    cq = 'slimta.smtp.reply.Reply'
+    c = e.p.cls(cq)
+
+    def is_getter(m):
+        return any(isinstance(d, ast.Name) and d.id == 'property'
+                   for d in m.node.decorator_list)
+
+    def self_attr(x):
+        return isinstance(x, ast.Attribute) and \
+            isinstance(x.value, ast.Name) and x.value.id == 'self'
+    getters = {mn: m for mn, m in c.methods.items() if is_getter(m)}
+    # (getters are stored under the property name; setters replace them in
+    # the method table, so look the decorated definitions up in the body)
+    defs = {}
+    for st in c.node.body:
+        if isinstance(st, ast.FunctionDef):
+            kind = 'method'
+            for d in st.decorator_list:
+                if isinstance(d, ast.Name) and d.id == 'property':
+                    kind = 'getter'
+                elif isinstance(d, ast.Attribute) and d.attr == 'setter':
+                    kind = 'setter'
+            defs.setdefault((st.name, kind), st)
+    getter_nodes = {n: f for (n, k), f in defs.items() if k == 'getter'}
+
+    def reads(fnode, seen=()):
+        out = set()
+        for x in ast.walk(fnode):
+            if self_attr(x) and isinstance(x.ctx, ast.Load):
+                if x.attr in getter_nodes and x.attr not in seen:
+                    out |= reads(getter_nodes[x.attr], seen + (x.attr,))
+                else:
+                    out.add(x.attr)
+        return out
+
+    def writes(fnode):
+        out = set()
+        for x in ast.walk(fnode):
+            tg = []
+            if isinstance(x, ast.Assign):
+                tg = x.targets
+            elif isinstance(x, (ast.AugAssign, ast.AnnAssign)):
+                tg = [x.target]
+            for t in tg:
+                for el in ast.walk(t):
+                    if self_attr(el) and isinstance(el.ctx, ast.Store):
+                        out.add(el.attr)
+        return out
+    memos = {}
+    for name, g in getter_nodes.items():
+        for a in writes(g):
+            src = reads(g) - {a}
+            if src:
+                memos.setdefault(a, set()).update(src)
+    rep.evaluations += 1
+    rep.functions.add(cq)
+    if not memos:
+        rep.ok('W8', cq, 'no property getter of Reply keeps derived state',
+               reason='%d getters looked at' % len(getter_nodes))
+        return
+    setter_names = {n for (n, k) in defs if k == 'setter'}
+    for a, src in sorted(memos.items()):
+        # writing through a property setter counts as writing what the
+        # setter writes
+        for (name, kind), f in sorted(defs.items()):
+            if kind == 'getter':
+                continue
+            w = writes(f)
+            via = set()
+            for x in ast.walk(f):
+                if self_attr(x) and isinstance(x.ctx, ast.Store) and \
+                        x.attr in setter_names:
+                    via |= writes(defs[(x.attr, 'setter')])
+            touched = (w | via) & src
+            if not touched:
+                continue
+            rep.evaluations += 1
+            rep.check(a in (w | via), 'W8', '%s.%s' % (cq, name),
+                      '%s refreshes the derived self.%s' % (name, a),
+                      '%s writes %s, from which a getter fills self.%s, '
+                      'but leaves self.%s as it was: a reply whose text was '
+                      'read before is sent with the old text after it was '
+                      're-populated (the wire carries a code and an ESC / '
+                      'text that belong to different replies)' % (
+                          name, sorted(touched), a, a),
+                      loc='%s:%d' % (c.module.relpath, f.lineno),
+                      reason='writes self.%s too' % a)
